@@ -72,7 +72,33 @@ func parseScript(s string) *scriptedVerifier {
 	return v
 }
 
+// execVerifyAll: VerifyAllEventSignatures (the entry point of CheckStateResponse / LoadAndVerify) on several events with one
+// verifier: one verdict per event, in order; each must be the verdict VerifyEventSignatures gives for that event alone.
+func execVerifyAll(ver, evs, script string) string {
+	var pdus []gmsl.PDU
+	for _, a := range strings.Split(evs, "|") {
+		ev, err := parseEvArg(ver, a)
+		if err != nil {
+			return "err:construct"
+		}
+		pdus = append(pdus, ev)
+	}
+	sv := parseScript(script)
+	errs := gmsl.VerifyAllEventSignatures(context.Background(), pdus, sv, StdQuerier)
+	if len(errs) != len(pdus) {
+		return fmt.Sprintf("bad:%d-results-for-%d-events", len(errs), len(pdus))
+	}
+	var out []string
+	for _, e := range errs {
+		out = append(out, coarse(e))
+	}
+	return strings.Join(out, ",")
+}
+
 func execSigners(op string, args []string) string {
+	if op == "verify_all" {
+		return execVerifyAll(args[0], args[1], args[2])
+	}
 	if op != "verify" && op != "trace" && op != "member_reading" {
 		return "bad-op"
 	}
@@ -757,6 +783,101 @@ func genSigners(o *Out, tier string, r *Rng) {
 		if r.Chance(8) {
 			o.Do("verify", ver, arg, scriptArg(nil, true, true)+selfSection)
 			o.Do("trace", ver, arg, scriptArg(nil, false, true)+selfSection)
+		}
+	}
+	genVerifyAll(o, tier, r)
+}
+
+// genVerifyAll: the bulk entry point.  2-5 events of one room version to one verifier: events with several required servers
+// (invites across servers, restricted joins, version 1-2 IDs naming another server), the same event twice, and - in the
+// versions whose ID is a member of the event - two DIFFERENT events under one event ID sent from different servers; every
+// asked server answers valid / invalid at random, so a verdict carried over from one request or one event to another shows.
+func genVerifyAll(o *Out, tier string, r *Rng) {
+	n := 120
+	if tier == "thorough" {
+		n = 6000
+	}
+	for i := 0; i < n; i++ {
+		ver := allVersions[i%len(allVersions)]
+		if ver == pseudoVer {
+			continue
+		}
+		if r.Chance(25) {
+			ver = Pick(r, []string{"1", "2"})
+		}
+		var cs []*signersCase
+		for k := 2 + r.Intn(4); len(cs) < k; {
+			c := genSignersEvent(r, ver, false)
+			if c == nil {
+				k--
+				continue
+			}
+			cs = append(cs, c)
+		}
+		if len(cs) < 2 {
+			continue
+		}
+		f, _ := verFormat(ver)
+		if r.Chance(30) {
+			cs = append(cs, cs[r.Intn(len(cs))]) // the same event again
+			o.Count("all.repeat")
+		}
+		if f == 1 && r.Chance(50) {
+			// another event under the ID of the first one (the ID is just a member in this format)
+			for k := 0; k < 6; k++ {
+				c := genSignersEvent(r, ver, false)
+				if c == nil {
+					continue
+				}
+				var m map[string]interface{}
+				if json.Unmarshal(c.ev.JSON, &m) != nil {
+					continue
+				}
+				m["event_id"] = cs[0].ev.ID
+				js, err := json.Marshal(m)
+				if err != nil {
+					continue
+				}
+				cs = append(cs, &signersCase{ver: ver, ev: &Ev{ID: cs[0].ev.ID, JSON: js}, label: "twin"})
+				o.Count("all.same-id-twin")
+				break
+			}
+		}
+		var args []string
+		servers := map[string]bool{}
+		ok := true
+		for _, c := range cs {
+			p, err := parseEvArg(ver, c.ev.Arg())
+			if err != nil {
+				ok = false
+				break
+			}
+			args = append(args, c.ev.Arg())
+			probe := &scriptedVerifier{table: map[string]bool{}, dflt: true}
+			Guard(func() string { return coarse(gmsl.VerifyEventSignatures(context.Background(), p, probe, StdQuerier)) })
+			for _, q := range probe.requests {
+				servers[string(q.ServerName)] = true
+			}
+		}
+		if !ok {
+			o.Count("all.construct-refused")
+			continue
+		}
+		var names []string
+		for s := range servers {
+			names = append(names, s)
+		}
+		sort.Strings(names)
+		for rep := 0; rep < 3; rep++ {
+			var table [][2]string
+			for _, s := range names {
+				table = append(table, [2]string{s, Pick(r, []string{"0", "1", "1"})})
+			}
+			im := o.Do("verify_all", ver, strings.Join(args, "|"), scriptArg(table, r.Bool(), false))
+			o.Count(fmt.Sprintf("all.%d-events.%d-servers", len(args), len(names)))
+			if strings.Contains(im, "ok") && strings.Contains(im, "rej") {
+				o.Count("all.mixed-verdicts")
+			}
 		}
 	}
 }
